@@ -351,7 +351,7 @@ impl Log {
 /// A seam never answers `Interrupted` more often than this in a row: progress is
 /// guaranteed, so a consumer that retries without bound terminates, and one that gives up
 /// (or counts success) after a few retries is found out.
-pub const MAX_CONSECUTIVE_EINTR: u8 = 8;
+pub const MAX_CONSECUTIVE_EINTR: u8 = 20;
 
 /// Payload of the sentinel unwind that stops a consumer which exceeded its step bound.
 pub struct StepLimit {
